@@ -5425,13 +5425,14 @@ pub fn initialize(env: &mut Env) {
                         }
                     }
 
-                    try_borrow_nres(env, "interact print", "")?.mut_top_env(|t| -> NRes<()> {
-                        for out_line in mut_obj_into_iter(&mut cur, "interact lines print")? {
-                            writeln!(t.output, "{}", out_line?)
-                                .map_err(|e| NErr::io_error(format!("writing {}", e)))?;
-                        }
-                        Ok(())
-                    })?;
+                    // force each line before borrowing the output: a lazy result may run code
+                    // that prints
+                    for out_line in mut_obj_into_iter(&mut cur, "interact lines print")? {
+                        let out_line = out_line?;
+                        try_borrow_nres(env, "interact print", "")?
+                            .mut_top_env(|t| writeln!(t.output, "{}", out_line))
+                            .map_err(|e| NErr::io_error(format!("writing {}", e)))?;
+                    }
                     Ok(Obj::Null)
                 }
                 Err(msg) => Err(NErr::value_error(format!(
